@@ -9,8 +9,10 @@ is alone). What is proved, for **every** number of tasks, **every** set of progr
 schedule (no bound anywhere):
 
 * `C28_deadlock_free` — if every program respects one global order on lock *objects*
-  (`Disciplined`: each acquire strictly above everything held, whatever the mode) then every
-  reachable state that is not finished has a successor.
+  (`Disciplined`: each acquire strictly above everything held, whatever the mode; a task that **waits for
+  other tasks** — join handles, draining a channel its children feed — while holding locks only waits for
+  tasks spawned later whose remaining lock needs (closed under their own waits, `WF`) are all strictly above
+  what it holds) then every reachable state that is not finished has a successor.
 * `C28_runs_bounded`, `C28_maximal_runs_finish` — every run has at most `Σ (2·|p| + 1)` steps and a
   run that cannot be extended has finished every task: every task that waits for a lock gets it.
 * `C28_mutual_exclusion` — the lock model itself is sound (a writer is alone).
@@ -21,21 +23,37 @@ respects the order, `C28_server_deadlock_free` lifts that to every set of tasks 
 table (`Conforms`). `C28_programs_disciplined` is the same check on one representative path per handler.
 The runner cross-validates the table against lock traces of the real server (hook H4).
 
-Partial: awaiting a channel or a client response while holding a lock, `std::sync::Mutex`es and real
-timers are outside the model (see notes/sched.md).
+Awaits: `Gen.lockAwaits` lists every `.await` / `select!` inside a guard scope that is not a lock acquisition,
+with the held set, the locks the awaited party may still request and whether the wait is time-bounded;
+`C28_awaits_ok` (by `decide`): each is allowed (time-bounded, or the `wait` clause of `Disciplined` holds);
+`C28_wait_under_lock_deadlocks`: a driver that drains its children's channel while holding the lock the children
+need deadlocks as soon as a writer queues (3 tasks).
+
+Partial: waits for the *client* and for external processes are only covered through their time bounds,
+`std::sync::Mutex`es and real timers are outside the model (see notes/sched.md).
 -/
 namespace Locks
 
 /-- **C28 deadlock freedom.** Any set of disciplined programs, any reachable state: not finished ⇒
 some step is enabled. -/
-theorem C28_deadlock_free (ps : List Prog) (hd : ∀ p ∈ ps, Disciplined [] p)
+theorem C28_deadlock_free (need : Nat → List Nat) (ps : List Prog) (hwf : WF need ps)
+    (hd : ∀ p ∈ ps, Disciplined need [] p)
     (s : St) (hr : Reachable (init ps) s) (hnf : ¬ finished s) : ∃ s', Step s s' :=
-  can_step s (inv_reachable (inv_init ps hd) hr) hnf
+  can_step s (inv_reachable (inv_init ps hwf hd) hr) hnf
 
 /-- the hypotheses of `C28_deadlock_free` are satisfiable on a non-trivial value: a reader that nests
 `analysis < workspace_manager`, a writer of each, and a mutex user -/
-example : ∀ p ∈ ([[.acq 1 .r, .acq 2 .r, .rel 2, .rel 1], [.acq 1 .w, .acq 2 .r, .acq 3 .w, .rel 3, .rel 2, .rel 1],
-    [.acq 2 .w, .rel 2]] : List Prog), Disciplined [] p := by decide
+example :
+    let ps : List Prog := [[.acq 1 .r, .acq 2 .r, .rel 2, .rel 1], [.acq 1 .w, .acq 2 .r, .acq 3 .w, .rel 3, .rel 2, .rel 1],
+      [.acq 2 .w, .rel 2]]
+    WF (needOf ps) ps ∧ ∀ p ∈ ps, Disciplined (needOf ps) [] p := by decide
+
+/-- … and with waits: a driver that holds `analysis` (1) while it waits for two children that only need the
+token mutex (3) and `workspace_manager` (2); a child that itself waits for a grandchild -/
+example :
+    let ps : List Prog := [[.acq 1 .w, .rel 1], [.acq 1 .r, .wait [2, 3], .rel 1], [.acq 3 .w, .rel 3, .wait [4]],
+      [.acq 2 .r, .rel 2], [.acq 3 .w, .rel 3]]
+    WF (needOf ps) ps ∧ ∀ p ∈ ps, Disciplined (needOf ps) [] p := by decide
 
 /-- **Every run is finite**: `n` steps from the initial state ⇒ `n ≤ Σ (2·|p| + 1)`. -/
 theorem C28_runs_bounded (ps : List Prog) (s : St) (n : Nat) (h : RunN (init ps) n s) :
@@ -44,17 +62,19 @@ theorem C28_runs_bounded (ps : List Prog) (s : St) (n : Nat) (h : RunN (init ps)
 
 /-- **Every task gets its locks**: a run of disciplined programs that cannot be extended has finished
 every task (so no task waits forever; together with `C28_runs_bounded` every maximal run ends so). -/
-theorem C28_maximal_runs_finish (ps : List Prog) (hd : ∀ p ∈ ps, Disciplined [] p)
+theorem C28_maximal_runs_finish (need : Nat → List Nat) (ps : List Prog) (hwf : WF need ps)
+    (hd : ∀ p ∈ ps, Disciplined need [] p)
     (s : St) (n : Nat) (h : RunN (init ps) n s) (hmax : ¬ ∃ s', Step s s') : finished s :=
   Classical.byContradiction fun hnf =>
-    hmax (C28_deadlock_free ps hd s (runN_reachable h) hnf)
+    hmax (C28_deadlock_free need ps hwf hd s (runN_reachable h) hnf)
 
 /-- the model's locks really exclude: in every reachable state each lock is held by readers only or
 by exactly one writer -/
-theorem C28_mutual_exclusion (ps : List Prog) (hd : ∀ p ∈ ps, Disciplined [] p)
+theorem C28_mutual_exclusion (need : Nat → List Nat) (ps : List Prog) (hwf : WF need ps)
+    (hd : ∀ p ∈ ps, Disciplined need [] p)
     (s : St) (hr : Reachable (init ps) s) (l : Nat) :
     compatible (s.locks l).holders .r = true ∨ ∃ i, (s.locks l).holders = [(i, .w)] :=
-  (inv_reachable (inv_init ps hd) hr).excl l
+  (inv_reachable (inv_init ps hwf hd) hr).excl l
 
 /-! ## Tie to the source: the extracted site table -/
 
@@ -62,18 +82,31 @@ theorem C28_mutual_exclusion (ps : List Prog) (hd : ∀ p ∈ ps, Disciplined []
 theorem C28_sites_ok : ∀ s ∈ Gen.lockSites, s.ok = true := by decide
 
 /-- the representative path of every handler / spawned block is disciplined -/
-theorem C28_programs_disciplined : ∀ p ∈ Gen.lockPrograms, Disciplined [] p.2 := by decide
+theorem C28_programs_disciplined : ∀ p ∈ Gen.lockPrograms, Disciplined (fun _ => []) [] p.2 := by decide
 
 /-- … and follows the site table (so the hypothesis of `C28_server_deadlock_free` is satisfiable by the
 extracted paths themselves) -/
 theorem C28_programs_conform : ∀ p ∈ Gen.lockPrograms, Conforms Gen.lockSites [] p.2 := by decide
 
+/-- every extracted await inside a guard scope is allowed: time-bounded, or everything the awaited party may
+still request is strictly above everything held -/
+theorem C28_awaits_ok : ∀ a ∈ Gen.lockAwaits, a.allowed = true := by decide
+
+/-- … which, for the awaits that are not time-bounded, is the `wait` clause of `Disciplined` -/
+theorem C28_unbounded_awaits_ordered :
+    ∀ a ∈ Gen.lockAwaits, a.bounded = false → ∀ l ∈ a.needs, ∀ h ∈ a.held, h < l :=
+  fun a ha hb => await_allowed_sound a (C28_awaits_ok a ha) hb
+
 /-- **C28 for the server.** Any number of concurrent tasks, each following some path whose
-acquisitions happen at extracted sites with held sets inside the sites' may-held sets: no reachable
-state is stuck. -/
+acquisitions happen at extracted sites with held sets inside the sites' may-held sets, and which wait for
+other tasks (only for tasks spawned later) while holding no lock: no reachable state is stuck.
+(Waits under a lock are the `Gen.lockAwaits` entries: the unbounded ones are channel sends to a receiver
+that requests nothing, i.e. they never block on another task's lock.) -/
 theorem C28_server_deadlock_free (ps : List Prog) (hc : ∀ p ∈ ps, Conforms Gen.lockSites [] p)
+    (hf : WaitsForward ps)
     (s : St) (hr : Reachable (init ps) s) (hnf : ¬ finished s) : ∃ s', Step s s' :=
-  C28_deadlock_free ps (fun p hp => conforms_disciplined Gen.lockSites C28_sites_ok [] p (hc p hp)) s hr hnf
+  C28_deadlock_free (allNeed ps) ps (wf_allNeed ps hf)
+    (fun p hp => conforms_disciplined (allNeed ps) Gen.lockSites C28_sites_ok [] p (hc p hp)) s hr hnf
 
 /-! ## Witnesses: why the order must be on lock objects (state of the pinned tree) -/
 
@@ -130,6 +163,39 @@ theorem C28_reacquire_deadlocks :
 
 /-- neither witness program is accepted by the object-level discipline -/
 theorem C28_witnesses_rejected :
-    ¬ Disciplined [] watchedFilesOld ∧ ¬ Disciplined [] watchedFilesReacquire := by decide
+    ¬ Disciplined (fun _ => []) [] watchedFilesOld ∧ ¬ Disciplined (fun _ => []) [] watchedFilesReacquire := by decide
+
+/-! ## Waiting for other tasks while holding a lock they need -/
+
+/-- an `analysis` writer (didOpen/didChange) -/
+def analysisWriter : Prog := [.acq 1 .w, .rel 1]
+/-- a workspace-diagnostic driver that keeps its `analysis` read guard while it drains the channel its per-file
+child tasks feed (`push_workspace_diagnostic` without the `drop(read_analysis)`) -/
+def driverHoldingRead : Prog := [.acq 1 .r, .wait [2], .rel 1]
+/-- a per-file diagnostic child: `analysis.read` -/
+def diagChild : Prog := [.acq 1 .r, .rel 1]
+
+/-- **Awaiting children under a lock they need deadlocks** once a writer queues in between: the driver holds
+the read lock and waits for the child, the writer waits for the driver, the child (fair lock) waits behind the
+writer. No acquisition is out of order — only the `wait` clause of `Disciplined` rejects the driver. -/
+theorem C28_wait_under_lock_deadlocks :
+    (∀ p ∈ [analysisWriter, driverHoldingRead, diagChild], ∀ a ∈ p, a.below 3) ∧
+    WF (needOf [analysisWriter, driverHoldingRead, diagChild]) [analysisWriter, driverHoldingRead, diagChild] ∧
+    ¬ Disciplined (needOf [analysisWriter, driverHoldingRead, diagChild]) [] driverHoldingRead ∧
+    ∃ s, run (init [analysisWriter, driverHoldingRead, diagChild]) [.req 1, .grant 1, .req 0, .req 2] = some s ∧
+      ¬ finished s ∧ ∀ lab, exec s lab = none := by
+  refine ⟨by decide, by decide, by decide, ?_⟩
+  have hsome : (run (init [analysisWriter, driverHoldingRead, diagChild]) [.req 1, .grant 1, .req 0, .req 2]).isSome = true := by
+    decide
+  obtain ⟨s, hs⟩ := Option.isSome_iff_exists.mp hsome
+  have hst : stuck ((run (init [analysisWriter, driverHoldingRead, diagChild]) [.req 1, .grant 1, .req 0, .req 2]).getD (init [])) 3 = true := by
+    decide
+  rw [hs] at hst
+  exact ⟨s, hs, stuck_sound (below_run (below_init 3 _ (by decide)) hs) hst⟩
+
+/-- the same driver is fine when it drops the guard first, or when the children only need locks above it -/
+example :
+    let ps : List Prog := [analysisWriter, [.acq 1 .r, .rel 1, .wait [2]], diagChild]
+    WF (needOf ps) ps ∧ ∀ p ∈ ps, Disciplined (needOf ps) [] p := by decide
 
 end Locks
